@@ -312,6 +312,8 @@ PROPS["C15"] = {
     "trusted_base": [],
     "harnesses": [H("c15::" + n, "quick", 900) for n in ["c15_new_nonverbose_noext", "c15_new_nonverbose_ext_be", "c15_new_control",
                   "c15_new_nettrace_le", "c15_new_nettrace_be", "c15_new_verbose_empty", "c15_new_nettrace_empty", "c15_valid_rejects_mismatched_values"]]
+                 + [H("c15::" + n, "thorough", 1800, what="Message::new -> as_bytes -> dlt_message returns the configured message (one query)") for n in
+                    ["c15_back_nonverbose_noext", "c15_back_control", "c15_back_nettrace_be", "c15_back_nettrace_empty", "c15_back_verbose_empty", "c15_back_verbose_bool"]]
                  + [H(e["name"], e["tier"], 900, what="Argument::len == serialised length (and bytes == reference)") for e in _cat["w_arg"]]
                  + [H("c02w::" + n, "quick", 900, what="byte_len == length of Message::as_bytes without storage header (whole message)") for n in _wmsg_q]
                  + [H(e["name"], e["tier"], 900, what="byte_len == serialised length, Message::as_bytes == reference, one argument layout") for e in _cat["wm_arg"]],
